@@ -10,8 +10,11 @@ import (
 	"github.com/philpearl/avro"
 
 	"verifharness/fw"
+	"verifharness/gv"
 	"verifharness/ref"
 )
+
+var nullIntT, nullFloatT, nullBoolT, nullStringT = gv.NullIntT, gv.NullFloatT, gv.NullBoolT, gv.NullStringT
 
 // Codec SELECTION: the codec types exercised directly elsewhere in this check are reached, in ordinary use, through
 // Schema.Codec, which picks one from the (schema primitive, Go type) pair. Here every primitive Go type — plain and
@@ -33,7 +36,7 @@ type (
 
 type selCase struct {
 	name   string
-	schema string // primitive schema name for both fields
+	schema string                                    // primitive schema name for both fields
 	mk     func(i int) (v reflect.Value, enc []byte) // i-th test value of the Go type and its spec encoding
 	n      int
 }
@@ -241,6 +244,152 @@ func runSelection(c *fw.Ctx) {
 			}
 			if !ok {
 				c.Violation("wrong-value|"+locus, fmt.Sprintf("decoding %x gives %v err=%v — %s", want, back.Interface(), rerr, desc), desc)
+			}
+		}
+	}
+	// the same selection BEHIND A POINTER: three *T fields of one record under ["null", X]. The values are allocated
+	// by the codec (its New), side by side: a slot of the wrong width shows in its neighbours.
+	for _, sc := range selCases() {
+		v0, _ := sc.mk(0)
+		t := v0.Type()
+		pt := reflect.PointerTo(t)
+		st := reflect.StructOf([]reflect.StructField{{Name: "F", Type: pt, Tag: `json:"f"`}, {Name: "G", Type: pt, Tag: `json:"g"`}, {Name: "H", Type: pt, Tag: `json:"h"`}})
+		u := fmt.Sprintf(`["null","%s"]`, sc.schema)
+		schemaJSON := fmt.Sprintf(`{"type":"record","name":"r","fields":[{"name":"f","type":%s},{"name":"g","type":%s},{"name":"h","type":%s}]}`, u, u, u)
+		locus := "selection|pointer to " + sc.name + "|" + sc.schema
+		s, err := avro.SchemaFromString(schemaJSON)
+		if err != nil {
+			c.HarnessError(err.Error())
+			return
+		}
+		var codec avro.Codec
+		var berr error
+		if c.Guard(locus, "Schema.Codec for *"+sc.name+" under "+u, locus, func() { codec, berr = s.Codec(reflect.New(st).Elem().Interface()) }) || berr != nil {
+			continue
+		}
+		for i := 0; i < sc.n; i++ {
+			c.Eval(1)
+			idx := []int{i, (i + 1) % sc.n, (i + sc.n/2) % sc.n}
+			var want []byte
+			var vals []reflect.Value
+			skip := false
+			for _, k := range idx {
+				v, enc := sc.mk(k)
+				if sc.schema == "int" && len(enc) > 5 {
+					skip = true
+				}
+				vals = append(vals, v)
+				want = append(append(want, 2), enc...)
+			}
+			if skip {
+				continue
+			}
+			desc := fmt.Sprintf("three *%s under %s: %s, %s, %s", sc.name, u, bitsOf(vals[0]), bitsOf(vals[1]), bitsOf(vals[2]))
+			c.Nontrivial(desc)
+			back := reflect.New(st).Elem()
+			var rerr error
+			var out []byte
+			if c.Guard(locus, desc, desc, func() {
+				rerr = codec.Read(avro.NewReadBuf(want), unsafe.Pointer(back.UnsafeAddr()))
+				if rerr == nil {
+					w := avro.NewWriteBuf(make([]byte, 0, 64))
+					codec.Write(w, unsafe.Pointer(back.UnsafeAddr()))
+					out = append([]byte(nil), w.Bytes()...)
+				}
+			}) {
+				continue
+			}
+			ok := rerr == nil
+			for k := 0; ok && k < 3; k++ {
+				ok = !back.Field(k).IsNil() && sameValue(vals[k], back.Field(k).Elem())
+			}
+			if !ok {
+				got := ""
+				for k := 0; k < 3 && rerr == nil; k++ {
+					if back.Field(k).IsNil() {
+						got += " nil"
+					} else {
+						got += " " + bitsOf(back.Field(k).Elem())
+					}
+				}
+				c.Violation("wrong-value|"+locus, fmt.Sprintf("decoding %x gives%s err=%v — %s", want, got, rerr, desc), desc)
+				continue
+			}
+			if string(out) != string(want) && !(t.Kind() == reflect.Float32 || t.Kind() == reflect.Float64) {
+				c.Violation("wrong-bytes|"+locus, fmt.Sprintf("re-encoding what was decoded gives %x, the input was %x — %s", out, want, desc), desc)
+			}
+		}
+	}
+	// and for the library's own wrapper types, which carry the primitive inside: null.Int under int and long,
+	// null.Float under float and double, null.Bool, null.String — two fields each, valid values
+	type wcase struct {
+		t      reflect.Type
+		field  string
+		schema string
+		n      int
+		mk     func(i int) (interface{}, []byte)
+	}
+	f64 := func(i int) (interface{}, []byte) {
+		b := make([]byte, 8)
+		binary.LittleEndian.PutUint64(b, f64bits[i])
+		return math.Float64frombits(f64bits[i]), b
+	}
+	f32 := func(i int) (interface{}, []byte) {
+		b := make([]byte, 4)
+		binary.LittleEndian.PutUint32(b, f32bits[i])
+		return float64(math.Float32frombits(f32bits[i])), b
+	}
+	iv := intVals(64)
+	iv32 := intVals(32)
+	strs := []string{"", "a", "héllo"}
+	for _, wc := range []wcase{
+		{nullIntT, "Int64", "long", len(iv), func(i int) (interface{}, []byte) { return iv[i], ref.AppendLong(nil, iv[i]) }},
+		{nullIntT, "Int64", "int", len(iv32), func(i int) (interface{}, []byte) { return iv32[i], ref.AppendLong(nil, iv32[i]) }},
+		{nullFloatT, "Float64", "double", len(f64bits), f64},
+		{nullFloatT, "Float64", "float", len(f32bits), f32},
+		{nullBoolT, "Bool", "boolean", 2, func(i int) (interface{}, []byte) { return i == 1, []byte{byte(i)} }},
+		{nullStringT, "String", "string", len(strs), func(i int) (interface{}, []byte) {
+			return strs[i], append(ref.AppendLong(nil, int64(len(strs[i]))), strs[i]...)
+		}},
+	} {
+		st := reflect.StructOf([]reflect.StructField{{Name: "F", Type: wc.t, Tag: `json:"f"`}, {Name: "G", Type: wc.t, Tag: `json:"g"`}})
+		u := fmt.Sprintf(`["null","%s"]`, wc.schema)
+		schemaJSON := fmt.Sprintf(`{"type":"record","name":"r","fields":[{"name":"f","type":%s},{"name":"g","type":%s}]}`, u, u)
+		locus := "selection|" + wc.t.String() + "|" + wc.schema
+		s, err := avro.SchemaFromString(schemaJSON)
+		if err != nil {
+			c.HarnessError(err.Error())
+			return
+		}
+		var codec avro.Codec
+		var berr error
+		if c.Guard(locus, "Schema.Codec for "+wc.t.String()+" under "+u, locus, func() { codec, berr = s.Codec(reflect.New(st).Elem().Interface()) }) || berr != nil {
+			c.Count("selection_pairs_refused", 1)
+			continue
+		}
+		for i := 0; i < wc.n; i++ {
+			c.Eval(1)
+			j := (i + 1 + wc.n/2) % wc.n
+			fv, fenc := wc.mk(i)
+			gvv, genc := wc.mk(j)
+			want := append(append(append([]byte{2}, fenc...), 2), genc...)
+			desc := fmt.Sprintf("%s under %s: F=%v G=%v", wc.t, u, fv, gvv)
+			c.Nontrivial(desc)
+			back := reflect.New(st).Elem()
+			var rerr error
+			if c.Guard(locus, desc, desc, func() { rerr = codec.Read(avro.NewReadBuf(want), unsafe.Pointer(back.UnsafeAddr())) }) {
+				continue
+			}
+			ok := rerr == nil
+			for k, wv := range []interface{}{fv, gvv} {
+				if !ok {
+					break
+				}
+				f := back.Field(k)
+				ok = f.FieldByName("Valid").Bool() && sameValue(reflect.ValueOf(wv), f.FieldByName(wc.field))
+			}
+			if !ok {
+				c.Violation("wrong-value|"+locus, fmt.Sprintf("decoding %x gives %+v err=%v — %s", want, back.Interface(), rerr, desc), desc)
 			}
 		}
 	}
